@@ -452,7 +452,13 @@ impl<C> Inner<C> {
     where
         C: Service<ProtocolMessage, Response = ProtocolMessageAck, Error = DispatcherError<E>>,
     {
-        let result = match self.control.call(pkt).await {
+        let result = self.control.call(pkt).await;
+
+        // buffered control messages are released by the io dispatcher's
+        // readiness check, make sure it runs after completed call
+        self.sink.notify_dispatcher();
+
+        let result = match result {
             Ok(result) => {
                 if let Some(id) = num::NonZeroU16::new(packet_id) {
                     self.info.borrow_mut().inflight.remove(&id);
